@@ -13,7 +13,7 @@ NA={
 TEXT=json.load(open(ROOT+"/manifest_text.json"))
 out={"version":1,"setup_cmd":"./setup.sh",
  "hooks":{"guard":"verif-overlay",
-  "enable":"no source hooks are committed to /repo: /verif/simgen regenerates a go build overlay (go test -overlay /verif/.build/main/overlay.json: sync->nrisim/simsync, map ranges->nrisim/simorder, multi-case selects->seeded poll phase + original select, a scheduler yield after every channel receive, a function-entry reach counter, one added file exporting the accept loop) plus a scratch copy of ttrpc from the current working tree on every check; without the overlay /repo builds exactly as shipped",
+  "enable":"no source hooks are committed to /repo: /verif/simgen regenerates a go build overlay (go test -overlay /verif/.build/main/overlay.json: sync->nrisim/simsync, map ranges->nrisim/simorder, multi-case selects->seeded poll phase + original select, a scheduler yield after every channel receive, in every non-empty default clause of a select and between a ttRPC handler's return and the marshalling of its reply, a function-entry reach counter, one added file exporting the accept loop) plus a scratch copy of ttrpc from the current working tree on every check; without the overlay /repo builds exactly as shipped",
   "baseline_off_cmd":"for m in $(cat /w/out/gomods.txt); do MF=$(cd /repo/$m && . /w/out/goenv.sh && gomodflag); (cd /repo/$m && go test $MF -json -vet=off -count=1 -timeout 25m ./...); done",
   "source_commits":[],"add_only":True},
  "engines":[{"name":"nrisim","path":"/verif/nrisim","serves_properties":sorted(checks.keys()),
